@@ -227,7 +227,7 @@ pub enum COp {
     /// drain(range): take `front` items from the front, `back` from the back, then drop (or forget) the Drain
     Drain { v: usize, r: Rg, front: usize, back: usize, forget: bool },
     /// splice(range, vals): take `take` removed items, then drop the Splice
-    Splice { v: usize, r: Rg, vals: Vec<i64>, take: usize },
+    Splice { v: usize, r: Rg, vals: Vec<i64>, take: usize, #[serde(default)] inexact: bool },
     /// retain(|x| x.val % m != 0)
     Retain { v: usize, m: i64 },
     /// drain_filter(|x| x.val % m == 0): take `take` items by hand (-1: all), then drop the iterator
@@ -663,10 +663,11 @@ macro_rules! interp {
                                 }
                             });
                         }
-                        COp::Splice { v, r, vals, take } => {
+                        COp::Splice { v, r, vals, take, inexact } => {
                             let mut ev = base("splice");
                             ev.rg = [r.sk as i64, r.s, r.ek as i64, r.e];
                             ev.a = take as i64;
+                            ev.flag = inexact as i64;
                             ev.vals = vals.clone();
                             self.call(ev, v as i64, -1, |s, ev| {
                                 let mut got = Vec::new();
@@ -675,6 +676,9 @@ macro_rules! interp {
                                         tick();
                                         Tr::new(x)
                                     });
+                                    // an iterator whose size_hint lower bound under-reports (filter): Splice::drop
+                                    // then has to collect the rest and move the tail a second time
+                                    let it: Box<dyn Iterator<Item = Tr>> = if inexact { Box::new(it.filter(|_| true)) } else { Box::new(it) };
                                     let mut sp = x.splice(r.bounds(), it);
                                     for _ in 0..take {
                                         if let Some(t) = sp.next() {
